@@ -85,25 +85,45 @@ def r9(db, rep):
                  "[write end, older end))")
     fn = MEM + "::store"
     body = db.mir[fn]
-    tm = terms_of(db, fn, {})
-    vl = None
-    for nm, pl in body.get("names", []):
-        if nm == "value" and len(pl) == 1 and pl[0] <= body["argc"]:
-            vl = pl[0]
-    rep.anchor(vl is not None, "parameter value of store")
+    # the value being written: the parameter of the memory's value type (by type, not by name); private helpers of store that are
+    # handed something derived from it carry it in the corresponding parameter
+    vparams = [i for i in range(1, body["argc"] + 1) if body["types"][body["locals"][i]] in ("V", "&V")]
+    rep.anchor(len(vparams) == 1, "parameter value of store")
+    units = {fn: set(vparams)}
+    work = [fn]
+    while work:
+        f = work.pop()
+        fb = db.mir[f]
+        ftm = terms_of(db, f, {})
+        for i, t in mir_calls(fb):
+            c = mir_callee(t) or ""
+            if not c.startswith(MEM + "::") or c not in db.mir or c in (MEM + "::load", MEM + "::store"):
+                continue
+            c = db.mir[c]["def"]
+            h = db.hir.get(c)
+            if h is None or h.get("vis") == "Public":
+                continue
+            carried = {j + 1 for j, a_ in enumerate(t["args"]) if any(x in [("param", p_) for p_ in units[f]] for x in subterms(ftm.operand(a_)))}
+            if c not in units or not carried <= units[c]:
+                units[c] = units.get(c, set()) | carried
+                work.append(c)
     n = 0
-    for i, t in mir_calls(body):
-        if (mir_callee(t) or "") != MEM + "::load":
-            continue
-        addr, width_ = tm.operand(t["args"][1]), tm.operand(t["args"][2])
-        n += 1
-        head = not any(x == ("param", vl) for x in subterms(addr))     # address not derived from the new value: the head remnant
-        uses_value = any(x == ("param", vl) for x in subterms(width_))
-        if head:
-            r.decide(not uses_value, "store|head_remnant_width", db.where(body, t.get("l")),
-                     "the width of the head remnant of an overwritten value is computed from the width of the value being written")
-        else:
-            r.ok("store|tail_remnant|%d" % n, db.where(body, t.get("l")))
+    for f, carriers in sorted(units.items()):
+        fb = db.mir[f]
+        ftm = terms_of(db, f, {})
+        cps = [("param", p_) for p_ in carriers]
+        for i, t in mir_calls(fb):
+            if (mir_callee(t) or "") != MEM + "::load":
+                continue
+            addr, width_ = ftm.operand(t["args"][1]), ftm.operand(t["args"][2])
+            n += 1
+            head = not any(x in cps for x in subterms(addr))     # address not derived from the new value: the head remnant
+            uses_value = any(x in cps for x in subterms(width_))
+            if head:
+                r.decide(not uses_value, "store|head_remnant_width", db.where(fb, t.get("l")),
+                         "the width of the head remnant of an overwritten value is computed from the width of the value being written")
+            else:
+                r.ok("store|tail_remnant|%d" % n, db.where(fb, t.get("l")))
     r.floor(2, "remnant loads in store")
 
 
@@ -209,6 +229,38 @@ def r2b(db, rep):
              "page maps are compared page by page without comparing their sizes")
 
 
+_TOUCH = {}
+
+
+def cell_touchers(db):
+    if id(db) in _TOUCH:
+        return _TOUCH[id(db)]
+    base = {PAGE + "::load", PAGE + "::store"}
+    fns = [k for k in db.mir.keys() if k.startswith("memory::paged::") and "{closure#" not in k]
+    out = set()
+    changed = True
+    while changed:
+        changed = False
+        for f in fns:
+            if f in out:
+                continue
+            for d in [f] + list(db.closures_of(f)):
+                b = db.mir.get(d)
+                if b is None:
+                    continue
+                for i, t in mir_calls(b):
+                    c = mir_callee(t) or ""
+                    actual = db.mir[c]["def"] if c in db.mir else c
+                    if c in base or actual in base or c in out or actual in out or c.startswith("memory::backing::Memory::get"):
+                        out.add(f)
+                        changed = True
+                        break
+                if f in out:
+                    break
+    _TOUCH[id(db)] = out
+    return out
+
+
 def r3(db, rep):
     r = rep.rule("R3", "K6", "store and load reject widths that are zero or not a multiple of 8 before any cell "
                  "access: the rejecting branch dominates every call that touches cells")
@@ -232,7 +284,10 @@ def r3(db, rep):
             if c[0] == "bin" and c[1] in ("Eq", "Ne") and ("const", 0) in (c[2], c[3]) and (
                     "bits" in txt or ("param", 3) in (c[2], c[3])):
                 guards["zero"] = (i, c)
-        touches = [i for i, t in mir_calls(body) if last_seg(mir_callee(t) or "") in touch]
+        # calls that touch cells: the module's functions from which a page cell or the backing is read or written (found by
+        # reachability, so that splitting store/load into private helpers keeps them in view)
+        reach_cells = cell_touchers(db)
+        touches = [i for i, t in mir_calls(body) if (mir_callee(t) or "") in reach_cells or last_seg(mir_callee(t) or "") in touch]
         rep.anchor(touches, "cell accesses in %s" % fn)
         for g in ("mult8", "zero"):
             if g not in guards:
